@@ -14,6 +14,11 @@ type Buffer[T SignalTypes] struct {
 
 // Slice the Buffer with respect to channels.
 func (b *Buffer[T]) Slice(start, end int) *Buffer[T] {
+	// check bounds in frames, before the multiplication by the number of
+	// channels can overflow.
+	if start < 0 || start > end || end > b.Capacity() {
+		panic("slice bounds out of range")
+	}
 	start = b.BufferIndex(0, start)
 	end = b.BufferIndex(0, end)
 	return &Buffer[T]{
